@@ -62,6 +62,36 @@ PROPS['C02'] = dict(level='proof', steps=[V('stream'), V('reader'), E3('c02-read
                 text='structural-stream decoding (Flate predictor 10-15 geometry and PNG reconstruction, ASCII85) and startxref discovery are proved for all inputs (Verus); the lexical and cross-reference grammar (nom) is compared with an independent reference writer over every combination of a bounded set of syntactic choices.',
                 note='the nom grammar itself is outside both verifiers: bounded stand-in; flate2 assumed')
 
+PROPS['C11'] = dict(level='other', steps=[E3('c11-edits')],
+                title='Editing operations keep the document sound',
+                technique='bounded-exhaustive executable contracts: every call sequence of length <= 2 (thorough <= 3/4) over 38-54 editing calls on 14 start states, checked against an independent abstract model after every step',
+                text='bounded stand-in only: the editing functions are iterator/closure graph code outside the verifiers\' subset (DESIGN 5, C11); every step of every enumerated sequence is checked against observers written from the property statement.',
+                note='bounded; three known findings recorded in known_findings.json')
+
+PROPS['C12'] = dict(level='other', steps=[E3('c12-pages')],
+                title='Page enumeration is the depth-first order of the page tree',
+                technique='bounded-exhaustive: all page trees <= 7 nodes (thorough 9) x id layouts x Kids holdings, deep/wide patterns, malformed graphs and kinds, against the depth-first order computed from the tree shape',
+                text='bounded stand-in: exact order on every enumerated well-formed tree; termination / only-pages / no panic on every enumerated malformed one.',
+                note='bounded; PageTreeIter::next termination proof from the design probe is not yet wired into a unit')
+
+PROPS['C17'] = dict(level='other', steps=[E3('c17-outline')],
+                title='Bookmarks become a well-formed outline that reads back',
+                technique='bounded-exhaustive: every attachment sequence of <= 5 (thorough 6) bookmarks x pages x targets x 4 document layouts, 23-title alphabet, every Unicode scalar value as a title (thorough), against an abstract forest',
+                text='bounded stand-in: links, order, fresh ids, titles, destinations and get_toc before/after save+load on every enumerated forest.',
+                note='bounded')
+
+PROPS['C05'] = dict(level='proof', steps=[V('crypt'), E3('c05-encrypt')],
+                title='Encrypt then decrypt restores every string and stream',
+                technique='Verus contracts: RC4 against its definition + involution lemma, PKCS#5 pad/unpad inverse; bounded cross product of handlers x filters x passwords x documents through encrypt / decrypt / save / load',
+                text='the cipher kernels written in the crate are proved for all inputs: Rc4::new is the KSA, apply_keystream/encrypt/decrypt are the PRGA XOR and decrypt(encrypt(x)) = x; Pkcs5 raw_pad / unpad are inverse (Verus). Filter selection, key derivation, password authentication and the document walk are covered by the bounded family only.',
+                note='aes/cbc/md-5/sha2/rand assumed; encrypt_object/decrypt_object and Document::{encrypt,decrypt} are closure/iterator code not under contract')
+
+PROPS['C13'] = dict(level='other', steps=[E3('c13-queries')],
+                title='Read-only queries are total on arbitrary object graphs',
+                technique='bounded-exhaustive typed-chaos documents (17 families, every key the query code reads bound to every kind / reference / cycle) evaluated in worker processes with stack, CPU and memory limits',
+                text='bounded stand-in: every read-only query on every enumerated small document returns without panic, abort, stack overflow or exceeding a CPU budget; lookups agree with an independent chain follower.',
+                note='bounded; the walkers are closure/iterator code not under contract')
+
 NOT_APPLICABLE = {
     'C18': "every clause is about what chrono/jiff/time format and parse; the crate's own code is two string edits, so no contract within either verifier's reach expresses the property",
 }
